@@ -106,6 +106,13 @@ CHECKS = {
         "Trusted: snapshot read-out (public APIs + dump of exactly the tables named by the component's Tables object).",
         "DESIGN.md 3 C17, A.14",
     ),
+    "C19": (
+        "exploration",
+        "metamorphic/differential execution of Hypothesis-generated task programs in three modes (sync, Mem + ThreadRunner, SQLite + ThreadRunner under a deterministic scheduler) plus a reference interpreter of the retry rules",
+        "Each generated program (returns, scripted retriable / non-retriable raises on chosen attempts, nested .result calls, parallelize groups; plain and direct_task flavours; max_retries 0..3; retry_for subsets) is run inline in dev sync mode and distributed on both stacks with the real runner loop in virtual time: outcomes (value or exception type+args) and per-node body-execution counts must be equal across modes and equal to the denotation (always-retriable: max_retries+1 executions then failure; success on attempt k: k executions; non-retriable: 1).",
+        "Trusted: interpreter tasks and reference retry interpreter; programs with a raise below a group are compared by outcome class only (completion-order dependent); bounded liveness for the distributed runs.",
+        "DESIGN.md 3 C19, A.13",
+    ),
 }
 
 NOT_YET = "check not built yet in this session (work in progress, see DESIGN.md section 3)"
